@@ -338,3 +338,12 @@ def _map_from_iter(eng, m, args, fr, dty):
     mp = MapV(is_set=_is_set_name(m.group(0)))
     _map_extend(eng, m, [Ref(Cell(mp)), args[0]], fr, dty)
     return mp
+
+
+@model(r'^<' + MAP + r'<.*> as (?:std::ops::)?Index<.*>>::index$')
+def _map_index(eng, m, args, fr, dty):
+    mp = the_map(eng, args[0], fr)
+    i = lookup(eng, mp, args[1], fr)
+    if i is None:
+        raise PathEnd('panic', 'HashMap index: key not found')
+    return Ref(mp.entries[i][1])
